@@ -59,11 +59,20 @@ PROPS = {
             {'template': 'units/c07_policy.rs.in', 'modes': [[]], 'canary': True},
             {'template': 'units/c07_exponent.rs.in', 'modes': [[]], 'canary': True},
             {'template': 'units/c07_binop_plan.rs.in', 'modes': [[]], 'canary': True},
+            {'template': 'units/c07_checker.rs.in', 'modes': [[]], 'canary': True},
         ],
         'kani': [],
         'not_covered': [
-            'TypeChecker::check_binary and the compound-assignment check (methods on checker state), const_eval\'s use',
+            'the compound-assignment check inside check_statement (inline in a 400-line method on checker state), const_eval\'s use; in check_binary the recursive check_expr of the operands and types_compatible are assumed contracts',
             'emit_binop_expr: splicing of the plan into the output token stream (quote!/TokenStream)',
+        ],
+        # functions that cannot be brought within the verifier's reach (methods on the checker's state): a bounded
+        # stand-in through the REAL front end (lex + parse + check), exhaustive over the stated space; labelled bounded
+        'bounded_standins': [
+            {'oracle': 'incan::static_type', 'cases': 1176, 'function': 'TypeChecker: annotated let / return / call argument of a binary expression',
+             'bound': 'exhaustive over 7 operators x int/float operand kinds x int/float annotation x 7 right-operand forms (variable, const, literal, 0, negative literal, parenthesised, double minus) x 3 binding positions; one fixed program shape'},
+            {'oracle': 'incan::compound_assign', 'cases': 24, 'function': 'TypeChecker::check_statement, CompoundAssignment arm',
+             'bound': 'exhaustive over 6 compound operators x int/float target x int/float value; one fixed program shape'},
         ],
         'assumptions': ['A6: integer literals in the syntax tree / IR are non-negative (the lexer scans digits), so negating one cannot overflow'],
     },
